@@ -7,17 +7,29 @@ CONFIG = {
         "util": [("data/bookkeeping", "bookkeeping")],
         "env": {"quick": {"VERIF_C25_N": 4000}, "thorough": {"VERIF_C25_N": 120000}},
         "timeout": {"quick": 600, "thorough": 3000},
+    }, {
+        "name": "pool", "pkg": "./ledger/eval/", "run": "^TestVerifC25Pool$",
+        "files": ["ledger/eval/zz_verif_c25pool_test.go"],
+        "util": [("ledger/eval", "eval")],
+        "env": {"quick": {"VERIF_C25POOL_N": 3000}, "thorough": {"VERIF_C25POOL_N": 60000}},
+        "timeout": {"quick": 900, "thorough": 3000},
     }],
     "rule": "real RewardsState.NextRewardsState on: an exhaustive grid of tiny values (all 2x2 flag combinations, interval 0/1/2, "
             "refresh/no refresh, units 0..3); boundary-heavy random uint64 arguments (0, 1, 2^k+-1, 2^64-1, pool around MinBalance(+residue), "
             "units around rate+residue, level one quotient below 2^64, rate+residue around 2^64); realistic magnitudes under the parameter "
             "sets of every registered protocol version (read from config.Consensus at run time and passed in the case); 20-round chains. "
-            "A case is non-trivial when the round refreshes the rate or the level moves; distinct = distinct case lines.",
+            "A case is non-trivial when the round refreshes the rate or the level moves; distinct = distinct case lines. "
+            "Second harness (package ledger/eval): the real StartEvaluator on the package's in-memory test ledger; raw mode (header level given: "
+            "boundary-heavy level pairs, units incl. 0, pool = units*increase + MinBalance +-1, = withdrawal +-1, = MinBalance +-1, overflowing products) "
+            "and generate mode (StartEvaluator computes the level with NextRewardsState, then withdraws; overflowing rates, pool around MinBalance+rate+residue); "
+            "observation = accepted + resulting pool balance / rejecting exit.",
     "exhaustive": {"quick": False, "thorough": False},
     "explanation": "theorems hold for all uint64 states/arguments and ALL values of the four consensus parameters read (unbounded); "
                    "the executable oracle is proved to determine the output uniquely, so every compared case checks all four numeric fields",
     "assumptions": ["Go unsigned arithmetic wraps modulo 2^64; integer division by zero panics (language specification)",
                     "basics.OAdd/OSub behave as their C45 transcriptions (proved exact in C45, compared with the code there)"],
     "trusted_base": ["modelled: data/bookkeeping/block.go RewardsState.NextRewardsState as Gallina (coq/model/Rewards.v); "
-                     "the pool withdrawal in ledger/eval/eval.go StartEvaluator is NOT modelled here (C18)"],
+                     "ledger/eval/eval.go StartEvaluator segment 'Withdraw rewards from the pool' (level subtraction, Mul+SubA withdrawal, MinBalance-after check, "
+                     "three error exits) as Gallina (coq/model/RewardsPool.v); the pool account is NotParticipating in the harness (Get(pool,true) = stored balance); "
+                     "workaroundOverspentRewards (testnet hotfix rounds) not modelled"],
 }
